@@ -164,7 +164,7 @@ fn ref_strategy() -> impl Strategy<Value = VbaRef> {
 fn project_strategy() -> impl Strategy<Value = Project> {
     (proptest::sample::select(vec![1252u16, 932, 1251]), any::<bool>(), proptest::collection::vec(ref_strategy(), 0..5), 1usize..7, tok_strategy(), layout_strategy(), 0u8..4).prop_flat_map(|(codepage, compat, refs, n, dir_tok, layout, delivery)| {
         let names = names_for(codepage);
-        let mods: Vec<_> = (0..n).map(|i| (Just(names[i].to_string()), source_strategy(), prop_oneof![Just(0u32), 1u32..300], any::<u8>(), tok_strategy()).prop_map(|(name, src, text_offset, flags, tok)| ModSpec { name, src, text_offset, flags, tok }).boxed()).collect();
+        let mods: Vec<_> = (0..n).map(|i| (Just(names[i].to_string()), source_strategy(), prop_oneof![20 => Just(0u32), 20 => 1u32..300, 1 => proptest::sample::select(vec![65_535u32, 65_536, 70_001])], any::<u8>(), tok_strategy()).prop_map(|(name, src, text_offset, flags, tok)| ModSpec { name, src, text_offset, flags, tok }).boxed()).collect();
         (Just((codepage, compat, refs, dir_tok, layout, delivery)), mods).prop_map(|((codepage, compat, mut refs, dir_tok, layout, delivery), modules)| {
             // reference names are unique in a project
             let mut seen = std::collections::BTreeSet::new();
@@ -192,6 +192,14 @@ fn desc(p: &Project) -> VbaProjectDesc {
                         _ => 0xE9,
                     };
                     source[0] = hi;
+                }
+                if m.flags & 32 != 0 && p.codepage != 1251 {
+                    // content that happens to be valid UTF-8 although it is code-page text: the bytes
+                    // C2 A9 are "Â©" in code page 1252, C3 BD two half-width katakana in 932
+                    let pair: [u8; 2] = if p.codepage == 932 { [0xC3, 0xBD] } else { [0xC2, 0xA9] };
+                    source = b"Sub Copyright()\r\n    MsgBox \"".to_vec();
+                    source.extend_from_slice(&pair);
+                    source.extend_from_slice(b" 2020\"\r\nEnd Sub\r\n");
                 }
                 VbaModule { name: m.name.clone(), stream_name: if m.flags & 16 != 0 { format!("{}_s", m.name) } else { m.name.clone() }, source, text_offset: m.text_offset, class: m.flags & 1 != 0, read_only: m.flags & 2 != 0, private: m.flags & 4 != 0, tok: m.tok }
             })
